@@ -837,6 +837,17 @@ class Interp:
         for t in st.targets:
             self.assign(t, v, env, module)
 
+    def _find_setter(self, ci, attr, depth=0):
+        if attr in getattr(ci, "setters", {}):
+            return ci.setters[attr]
+        if depth < 4:
+            for b in ci.bases:
+                for bc in self.p.classes.get(b, []):
+                    r = self._find_setter(bc, attr, depth + 1)
+                    if r is not None:
+                        return r
+        return None
+
     def x_AnnAssign(self, st, env, module):
         if st.value is not None:
             self.assign(st.target, self.eval(st.value, env, module), env, module)
@@ -865,6 +876,10 @@ class Interp:
                     fr = o.cls.dataclass_kwargs().get("frozen")
                     if isinstance(fr, ast.Constant) and fr.value is True:
                         raise PyRaise(ExcVal("FrozenInstanceError", (t.attr,)))
+                setter = self._find_setter(o.cls, t.attr) if o.cls is not None else None
+                if setter is not None:
+                    self.call_fi(setter, [o, v], {})        # `obj.x = v` on a property runs its setter
+                    return
                 o.fields[t.attr] = v
             elif isinstance(o, Unknown):
                 self.event("extwrite", o.sym, t.attr)
